@@ -172,7 +172,7 @@ def run_case(case, bus, ex):
         bad = abs(cval - MR.correlation(u, v))          # a correlation is O(1)-bounded: absolute accuracy is what rounding allows (near-orthogonal pairs have no relative accuracy)
         bad = max(bad, 0.0 if -1 - 1e-12 <= cval <= 1 + 1e-12 else 1.0)
         bad = max(bad, abs(float(M.correlation(J(u), J(abs(al) * u))) - 1.0), abs(float(M.correlation(J(u), J(-abs(al) * u))) + 1.0))
-        bus.judge("correlation", bad, 1e-12, sigb, sample=dict(info, value=cval), witness=dict(info, value=cval, ref=MR.correlation(u, v)))
+        bus.judge("correlation", bad, 2e-11, sigb, sample=dict(info, value=cval), witness=dict(info, value=cval, ref=MR.correlation(u, v)))
     # ---------------- resolution invariance of band-limited pairs
     N2 = N + int(rng.choice([1, 2, 3, N]))
     u1, v1, u2, v2 = tpu.on_grid(N), tpv.on_grid(N), tpu.on_grid(N2), tpv.on_grid(N2)
